@@ -40,8 +40,19 @@ def run(ctx):
             totals[k] += st[k]
         samples.append({'schema': gen.targets()[n]['schema'], 'stats': st})
         ctx.units.add(gen.targets()[n]['schema'])
+    # a self-made schema with components: optional/required components containing groups with required members, nested components,
+    # components inside groups (the build's own schemas have no components; the stock FIX4.4+/5.x ones are in the thorough tier)
+    import os
+    comp = gen.custom_target(os.path.join(os.path.dirname(os.path.dirname(os.path.dirname(os.path.abspath(__file__)))), 'triage', 'c13', 'comp.xml'),
+                             'Comp', 'CP', second=False)
+    st, m, sc = tv.validate(ctx, 'Comp', target=comp, rid='R13.1', gid='R13.1')
+    progs += 1
+    for k in totals:
+        totals[k] += st[k]
+    samples.append({'schema': 'triage/c13/comp.xml (self-made)', 'stats': st})
+    ctx.units.add('verif:triage/c13/comp.xml')
     if ctx.tier == 'thorough':
-        import glob, os
+        import glob
         stock = sorted(glob.glob(os.path.join(gen.REPO, 'schema', 'FIX*.xml'))) + sorted(glob.glob(os.path.join(gen.REPO, 'test', 'FIX44*.xml')))
         batch = []
         for path in stock:
